@@ -194,6 +194,21 @@ class Check:
                 self.broken.append("theorem %s: %s" % (n, "not checked" if r is None else "assumes %s" % r))
         return res
 
+    def coqchk(self, timeout=1500):
+        """thorough tier: re-check props/Cxx.vo and everything it depends on with the independent checker and
+        record the axioms it reports"""
+        rc, out = sh(["coqchk", "-o", "-silent", "-Q", "theories", "DS", "-Q", "generated", "DSG", "-Q", "props", "DSP",
+                      "DSP.%s" % self.prop], cwd=os.path.join(ROOT, "coq"), timeout=timeout)
+        self.obligations.append("coqchk: independent re-check of props/%s.vo and its dependencies" % self.prop)
+        m = re.search(r"\* Axioms:(.*?)\n\s*\n\* Constants", out, re.S)
+        axioms = [a.strip() for a in (m.group(1).split("\n") if m else []) if a.strip() and a.strip() != "<none>"]
+        self.coverage["coqchk"] = {"rc": rc, "axioms": axioms or "<none>"}
+        bad = [a for a in axioms if a.split(".")[-1] not in ALLOWED_AXIOMS]
+        if rc == 0 and m and not bad and "type-in-type: <none>" in out and "positivity is assumed: <none>" in out:
+            self.discharged.append("coqchk")
+        else:
+            self.broken.append("coqchk: rc=%s axioms=%s %s" % (rc, axioms, out[-300:] if rc else ""))
+
     def hygiene(self):
         """no Admitted / admit / Axiom / Parameter / ... anywhere in the development"""
         rc, out = sh(r"grep -rnE '\b(Admitted|admit|Axiom|Axioms|Parameter|Parameters|Conjecture|Hypothesis|Variable|Abort All)\b|Unset Guard|bypass_check|type-in-type|impredicative-set|Admit Obligations' "
